@@ -154,13 +154,15 @@ def _observe_indicator(ind):
     out["name"] = ind.name
     out["settings"] = repr(ind.settings)
     out["as_list"] = ind.as_list()
-    out["has_reading"] = ind.has_reading
+    # the accessors that answer "at the cursor" are each asked on a copy of their own: asked one after the other on
+    # the same object, an accessor that moved the cursor would move it for the twin's observation just the same
+    out["has_reading"] = deepcopy(ind).has_reading
     out["reading_count"] = ind.reading_count()
     if cs:
-        out["reading"] = ind.reading()
-        out["prev_reading"] = ind.prev_reading()
-        out["reading_period3"] = ind.reading_period(3)
-        out["candles_sum2"] = ind.candles_sum(2, "close")
+        out["reading"] = deepcopy(ind).reading()
+        out["prev_reading"] = deepcopy(ind).prev_reading()
+        out["reading_period3"] = deepcopy(ind).reading_period(3)
+        out["candles_sum2"] = deepcopy(ind).candles_sum(2, "close")
     return out
 
 
